@@ -11,6 +11,7 @@ package main
 // buffer the analysis does not understand.
 
 import (
+	"os"
 	"fmt"
 	"go/token"
 	"go/types"
@@ -555,6 +556,25 @@ func (w *waBuilder) build(fr *waFrame, from int, ctx0 int) []waExit {
 					case "Read", "Skip", "Write":
 						rv, rf := fr.resolve(cc.Value)
 						path := codecFieldPath(rf.fn, rv)
+						// inside a helper method whose receiver is a part of the codec handed in by the caller (an entry of
+						// its field list, say), the path is relative to that part: prefix the caller's path to it
+						for g := rf; path != "" && g != nil && g.parent != nil && g.fn.Signature.Recv() != nil && len(g.fn.Params) > 0; g = g.parent {
+							arg, ok := g.bind[ssa.Value(g.fn.Params[0])]
+							if !ok {
+								break
+							}
+							pre := recvPathOfAddr(g.parent.fn, arg, 0)
+							if pre == "" {
+								pre = recvPathOfValue(g.parent.fn, arg, 0)
+							}
+							if os.Getenv("DBG_WA") != "" {
+								fmt.Fprintln(os.Stderr, "WA-PREFIX", g.fn.Name(), "arg", arg, "in", g.parent.fn.Name(), "pre", pre, "path", path)
+							}
+							if pre == "" {
+								break // the receiver is the caller's own receiver (or unknown): nothing to prefix
+							}
+							path = pre + "." + path
+						}
 						if path == "" {
 							path = "?" + strings.ReplaceAll(rv.String(), " ", "")
 						}
